@@ -402,6 +402,10 @@ pub fn scaling_families() -> Vec<(&'static str, String, String)> {
         ("-_", "- ".into(), "".into()),
         (">=1.2.3_<2_", ">=1.2.3 <2 ".into(), "".into()),
         ("1.2.3_||_>=4_", "1.2.3 || >=4 ".into(), "".into()),
+        ("foo_", "foo ".into(), "1.2.3".into()),
+        ("foo||", "foo||".into(), "1.2.3".into()),
+        (">=1.y_", ">=1.y ".into(), "".into()),
+        ("1.2.3.4_", "1.2.3.4 ".into(), "2".into()),
     ]
 }
 
